@@ -67,8 +67,33 @@ def _is_data(v):
                               classmethod, staticmethod, property))
 
 
+def _vacuous(v, depth=0):
+    """None, an empty container, or a container of such: the shape of a not-yet-filled memo."""
+    if v is None:
+        return True
+    if depth < 4 and isinstance(v, (dict, list, set, tuple, frozenset)):
+        vals = v.values() if isinstance(v, dict) else v
+        return all(_vacuous(x, depth + 1) for x in vals)
+    return False
+
+
+def _is_constant_name(name):
+    """Public UPPER_CASE names are constants by convention; a leading underscore or lower case marks
+    internal, possibly mutable state (caches, memo slots, counters)."""
+    import re
+
+    return re.match(r"^[A-Z][A-Z0-9_]*$", name) is not None
+
+
 class StateGuard(object):
-    """Snapshot of the library's constant state and of the process-global state it must not touch."""
+    """Snapshot of the library's constant tables and of the process-global state it must not touch.
+
+    Scope of "its own constant tables" (kept narrow on purpose, so that a *correct* cache or a call
+    counter is never an alarm): every name of cvss.constants2/3/4, and in the other cvss modules and on
+    the three classes the public UPPER_CASE names that hold data right after import. Every other
+    module-level / class-level data name (underscore-prefixed, lower case, or vacuous at import) is a
+    possible memo: a change there is only counted as a probe -- an *incorrect* memo is caught by oracle 1
+    through the collision families and the repeated-op histories."""
 
     def __init__(self):
         import cvss
@@ -84,7 +109,7 @@ class StateGuard(object):
                     continue
                 if n.startswith("cvss.constants"):
                     keep.append(name)
-                elif v is None or (isinstance(v, (dict, list, set, tuple)) and len(v) == 0):
+                elif _vacuous(v) or not _is_constant_name(name):
                     caches.append(name)
                 elif isinstance(v, (int, float, str, bytes, decimal.Decimal, dict, list, set, tuple, frozenset)):
                     keep.append(name)
@@ -97,7 +122,7 @@ class StateGuard(object):
             for name, v in sorted(vars(c).items()):
                 if name.startswith("__") or not _is_data(v) or callable(v):
                     continue
-                if v is None or (isinstance(v, (dict, list, set, tuple)) and len(v) == 0):
+                if _vacuous(v) or not _is_constant_name(name):
                     continue
                 keep.append(name)
             self.class_names[c.__name__] = keep
@@ -200,6 +225,15 @@ def gen_ops(rng, n_ops, pool, room, p_invalid):
     created = []
     for _ in range(n_ops):
         r = rng.below(100)
+        if ops and rng.chance(0.18):
+            # the same call again (right away or after something else): what a "last value" memo, a
+            # result cache filled on a failure path or a first-use side effect would need
+            prev = rng.choice(ops[-3:]) if rng.chance(0.6) else rng.choice(ops)
+            if prev["op"] in ("observe", "text", "cmp"):
+                again = dict(prev)
+                again.pop("as", None)
+                ops.append(again)
+                continue
         if r < 55:
             cls, how, s = rng.choice(pool)
             if rng.chance(p_invalid):
@@ -364,9 +398,33 @@ def execute_in_child(actors, granularity, decider, refs, repo_prefix, guard, max
                     check_invariants(i, k, installed)
         return run
 
+    # file-descriptor level: this child is dedicated to the run, so fd 1 and fd 2 can be pointed at an
+    # anonymous memory file; anything that bypasses sys.stdout/sys.stderr (os.write, sys.__stdout__,
+    # a C extension, a logging handler bound to the original stream at import) lands there
+    memfd = None
+    try:
+        memfd = os.memfd_create("cvsssim-fd12")
+        sys.__stdout__.flush()
+        sys.__stderr__.flush()
+        os.dup2(memfd, 1)
+        os.dup2(memfd, 2)
+    except (AttributeError, OSError):
+        memfd = None
     with runner23._Installed(term):
         guard.rebase_streams()
         ok = s.run([actor_fn(i) for i in range(n)])
+    if memfd is not None:
+        try:
+            sys.__stdout__.flush()
+            sys.__stderr__.flush()
+        except Exception:
+            pass
+        size = os.lseek(memfd, 0, os.SEEK_END)
+        if size:
+            os.lseek(memfd, 0, os.SEEK_SET)
+            data = os.read(memfd, 200)
+            inv.append([-1, -1, "writes-fd", "library wrote %d byte(s) to file descriptor 1/2 bypassing sys.stdout/sys.stderr: %r" %
+                        (size, data.decode("utf-8", "replace"))])
     # end-of-run invariants (main thread: its own context must be untouched too)
     final_bad = [x for x in guard.diff() if x != "sys.stdout/stderr identity"]
     for name in final_bad:
